@@ -1,0 +1,22 @@
+//go:build verif
+
+// Contracts for package ovsdb, read by /verif/govc. Comment-only file.
+package ovsdb
+
+// ---- helpers used by the decoders (frames only) ---------------------------
+
+//@ func ovsSliceToGoNotation
+//@ modifies nothing
+
+//@ func isAtomicType
+//@ pure
+
+//@ func (*ColumnType).Min
+//@ pure
+//@ ensures c.min == nil ==> result == 1
+//@ ensures c.min != nil ==> result == *c.min
+
+//@ func (*ColumnType).Max
+//@ pure
+//@ ensures c.max == nil ==> result == 1
+//@ ensures c.max != nil ==> result == *c.max
